@@ -478,3 +478,167 @@ Section Unify.
       + cbn. apply HV. assumption.
   Qed.
 End Unify.
+
+(* ------------------------------------------------------------------ assembly *)
+Lemma omap_option_map {A B C} (f : A -> option B) (g : B -> C) l r : omap f l = Some r ->
+  omap (fun x => option_map g (f x)) l = Some (map g r).
+Proof.
+  revert r. induction l as [|a l IH]; intros r H; cbn in *; [injection H as <-; reflexivity|].
+  destruct (f a) as [y|]; [|discriminate]. destruct (omap f l) as [ys|]; [|discriminate]. injection H as <-.
+  cbn. rewrite (IH ys eq_refl). reflexivity.
+Qed.
+Lemma concat_map_map {A B} (f : A -> B) (rows : list (list A)) : concat (map (map f) rows) = map f (concat rows).
+Proof. induction rows as [|r rows IH]; [reflexivity|]. cbn. rewrite map_app, IH. reflexivity. Qed.
+
+Theorem as_einsum_is_spec n : WF n -> as_einsum n = as_einsum_spec n.
+Proof.
+  intros W. pose proof (proj1 W) as W0.
+  unfold as_einsum, as_einsum_spec. fold (sorted_tids n). set (tids := sorted_tids n).
+  destruct (Z.eqb (last tids 0) VT) eqn:Hlast; [|reflexivity].
+  assert (Pt : Permutation (dkeys (tensors n)) tids) by apply ksort_perm.
+  destruct (omap (fun tid => dget tid (tensors n)) tids) as [tsall|] eqn:Ots.
+  2:{ (* every sorted id is a key *)
+      exfalso. assert (G : forall l, (forall k, In k l -> In k (dkeys (tensors n))) ->
+                      omap (fun tid => dget tid (tensors n)) l <> None).
+      { induction l as [|k l IH]; intros H; cbn; [discriminate|].
+        destruct (In_key_dget k (tensors n) (H k (or_introl eq_refl))) as [t ->].
+        pose proof (IH (fun k' Hk' => H k' (or_intror Hk'))) as IH'.
+        destruct (omap (fun tid => dget tid (tensors n)) l); [discriminate | congruence]. }
+      apply (G tids); [|exact Ots]. intros k Hk. eapply Permutation_in; [symmetry; exact Pt | exact Hk]. }
+  rewrite (omap_option_map _ t_ndim _ _ Ots).
+  unfold bond_order. fold tids. rewrite Ots. cbn [option_map].
+  fold (flat tsall). set (bl := zfirst_occ (flat tsall) []).
+  (* every member of tsall is a tensor of the network *)
+  assert (Hmem : forall t, In t tsall -> exists k, In (k, t) (tensors n)).
+  { intros t Ht. destruct (omap_In _ _ _ _ Ots Ht) as [k [_ Hk]]. exists k. apply dget_In. exact Hk. }
+  assert (Hnd : map t_ndim tsall = lens tsall).
+  { unfold lens. apply map_ext_in. intros t Ht. destruct (Hmem t Ht) as [k Hk]. unfold t_ndim. apply (wf_T n W0 k t Hk). }
+  rewrite Hnd.
+  (* the unification loop *)
+  assert (Loop : forall Bl Sd rows, (forall kb b, In (kb, b) Bl -> In (kb, b) (bonds n)) -> NoDup (dkeys Bl) ->
+            (forall kb, In kb (dkeys Bl) -> ~ In kb Sd) -> UInv tsall Sd rows ->
+            exists rows', ofold (unify_step n tids) Bl rows = Some rows' /\ UInv tsall (rev (dkeys Bl) ++ Sd) rows').
+  { induction Bl as [|[kb b] Bl IH]; intros Sd rows Sub ND Dis Inv.
+    - exists rows. cbn. auto.
+    - cbn [ofold]. cbn in ND. inversion ND as [|? ? Hk ND']; subst.
+      destruct (unify_step_inv n W tids tsall Pt Ots Sd rows kb b Inv (Sub kb b (or_introl eq_refl)))
+        as [rows1 [E1 Inv1]]; [apply Dis; left; reflexivity|].
+      rewrite E1. destruct (IH (kb :: Sd) rows1) as [rows' [E' Inv']]; try assumption.
+      + intros kb' b' H'. apply Sub. right. exact H'.
+      + intros kb' Hk' [E|E]; [subst; contradiction | apply (Dis kb'); [right; assumption | assumption]].
+      + exists rows'. split; [exact E'|]. cbn [dkeys map rev]. rewrite <- app_assoc. exact Inv'. }
+  destruct (ranges_spec (lens tsall) O) as [R1 R2].
+  destruct (Loop (bonds n) [] (ranges O (lens tsall))) as [rows1 [E1 [L1 V1]]]; auto.
+  { apply (wf_ndB n W0). }
+  { split; [exact R2|]. intros p Hp. rewrite R1. cbn [zmem existsb]. rewrite seq_nth; [reflexivity|].
+    rewrite <- (flat_len tsall). exact Hp. }
+  rewrite E1. rewrite app_nil_r in V1.
+  (* all legs lie on existing bonds *)
+  assert (Hfl : forall b, In b (flat tsall) -> In b (dkeys (bonds n))).
+  { intros b Hb. unfold flat in Hb. apply in_concat in Hb. destruct Hb as [l [Hl Hb]]. apply in_map_iff in Hl.
+    destruct Hl as [t [<- Ht]]. destruct (Hmem t Ht) as [k Hk]. eapply wf_bids_exist; eauto. }
+  assert (C1 : concat rows1 = map (FO tsall) (flat tsall)).
+  { apply nth_error_ext_lemma. intros p. destruct (Nat.lt_ge_cases p (length (flat tsall))) as [Hp|Hp].
+    - rewrite (nth_error_nth' _ O) by (rewrite (proj1 (concat_len_eq tsall rows1 L1)); exact Hp).
+      rewrite V1 by assumption. rewrite nth_error_map, (nth_error_nth' _ 0%Z) by assumption. cbn.
+      replace (zmem _ _) with true; [reflexivity|]. symmetry. apply zmem_In. apply in_rev. rewrite rev_involutive.
+      apply Hfl. apply nth_In. assumption.
+    - rewrite (proj2 (nth_error_None _ _)) by (rewrite (proj1 (concat_len_eq tsall rows1 L1)); exact Hp).
+      symmetry. apply nth_error_None. rewrite map_length. exact Hp. }
+  (* condensation *)
+  destruct (condense_concat rows1 ([], O)) as [D1 D2].
+  destruct (condense_row_spec (concat rows1) [] O []) as [S1 _].
+  { unfold StInv. cbn. split; [reflexivity|]. split; [reflexivity | constructor]. }
+  cbn [app] in S1.
+  assert (FOinj : forall a b, In a (flat tsall) -> In b (flat tsall) -> FO tsall a = FO tsall b -> a = b).
+  { intros a b Ha Hb E. unfold FO in E. destruct (zindex_Some a _ Ha) as [p Hp]. destruct (zindex_Some b _ Hb) as [q Hq].
+    rewrite Hp, Hq in E. subst q. apply zindex_sound in Hp, Hq. destruct Hp as [Hp _]. destruct Hq as [Hq _]. congruence. }
+  assert (Erows : condense rows1 ([], O) = map (fun t => map (lab_of bl) (t_bids t)) tsall).
+  { apply rows_eq.
+    - rewrite D2, L1. unfold lens. rewrite !map_map. apply map_ext. intros t. rewrite map_length. reflexivity.
+    - rewrite D1, S1, C1.
+      replace (map (fun t => map (lab_of bl) (t_bids t)) tsall) with (map (map (lab_of bl)) (map t_bids tsall))
+        by (rewrite map_map; reflexivity).
+      rewrite concat_map_map. fold (flat tsall). rewrite map_map. apply map_ext_in. intros b Hb.
+      change (@nil nat) with (map (FO tsall) []).
+      rewrite first_occ_map_inj by (intros x y Hx Hy; rewrite app_nil_r in Hx, Hy; apply FOinj; assumption).
+      fold bl. unfold idx, lab_of. rewrite nindex_map_inj; [reflexivity|].
+      intros a Ha. apply FOinj; [|assumption]. unfold bl in Ha. apply zfirst_occ_spec in Ha. apply Ha. }
+  rewrite Erows. reflexivity.
+Qed.
+
+(** C07 (a), full: the literal port *)
+Theorem contract_einsum_correct {K : Scalar} {L : ScalarLaws K} (n : net) (data : Z -> list nat -> K) v am :
+  WF n -> contract_einsum n data = Some (v, am) ->
+  exists shp, shape n = Some shp /\ fst (to_full_tensor v am) = shp /\
+    forall x, in_range shp x -> snd (to_full_tensor v am) x = defining_sum n data x.
+Proof.
+  intros W H. unfold contract_einsum in H. rewrite (as_einsum_is_spec n W) in H.
+  destruct (as_einsum_spec n) as [E|] eqn:HE; [|discriminate].
+  destruct (as_einsum_spec_correct n data W E v am HE H) as [shp [A [_ [B C]]]]. eauto.
+Qed.
+
+(* ------------------------------------------------------------------ totality: the virtual tensor is sorted last *)
+Section SortLast.
+  Variable key : Z -> Z.
+  Definition ksorted (l : list Z) : Prop := forall i j a b, (i < j)%nat -> nth_error l i = Some a -> nth_error l j = Some b -> key a <= key b.
+  Lemma ksorted_cons x l : ksorted l -> (forall y, In y l -> key x <= key y) -> ksorted (x :: l).
+  Proof.
+    intros Sl Hx [|i] [|j] a b Hlt Ha Hb; cbn in *; try lia.
+    - injection Ha as <-. apply Hx. eapply nth_error_In; eauto.
+    - eapply (Sl i j); eauto. lia.
+  Qed.
+  Lemma ksorted_tail x l : ksorted (x :: l) -> ksorted l /\ forall y, In y l -> key x <= key y.
+  Proof.
+    intros Sl. split.
+    - intros i j a b Hlt Ha Hb. apply (Sl (S i) (S j) a b); [lia | exact Ha | exact Hb].
+    - intros y Hy. apply In_nth_error in Hy. destruct Hy as [j Hj]. apply (Sl O (S j) x y); [lia | reflexivity | exact Hj].
+  Qed.
+  Lemma kinsert_sorted x l : ksorted l -> ksorted (kinsert key x l).
+  Proof.
+    induction l as [|y l IH]; intros Sl; cbn.
+    - intros i j a b Hlt Ha Hb. destruct i as [|i]; destruct j as [|j]; cbn in *; try lia; destruct j; discriminate.
+    - destruct (Z.ltb_spec (key x) (key y)).
+      + apply ksorted_cons; [assumption|]. intros z [<-|Hz]; [lia|].
+        destruct (ksorted_tail _ _ Sl) as [_ T]. specialize (T z Hz). lia.
+      + destruct (ksorted_tail _ _ Sl) as [Sl' T]. apply ksorted_cons; [apply IH; assumption|].
+        intros z Hz. apply (Permutation_in _ (Permutation_sym (kinsert_perm key x l))) in Hz.
+        destruct Hz as [<-|Hz]; [lia | apply T; assumption].
+  Qed.
+  Lemma ksort_sorted l : ksorted (ksort key l).
+  Proof.
+    unfold ksort. assert (G : forall acc, ksorted acc -> ksorted (fold_left (fun a x => kinsert key x a) l acc)).
+    { induction l as [|x l IH]; intros acc Sa; cbn; [assumption|]. apply IH. apply kinsert_sorted. assumption. }
+    apply G. intros i j a b _ Ha. destruct i; discriminate.
+  Qed.
+  (** the unique element with the strictly largest key is last *)
+  Lemma ksorted_last l m : ksorted l -> In m l -> (forall y, In y l -> y <> m -> key y < key m) -> NoDup l -> last l 0 = m.
+  Proof.
+    intros Sl Hm Hmax ND. destruct l as [|x0 l0]; [destruct Hm|].
+    assert (Hne : x0 :: l0 <> []) by discriminate.
+    pose proof (app_removelast_last 0 Hne) as E. set (z := last (x0 :: l0) 0) in *.
+    destruct (Z.eq_dec z m) as [|Hzm]; [assumption|]. exfalso.
+    assert (Hz : In z (x0 :: l0)) by (rewrite E; apply in_or_app; right; left; reflexivity).
+    pose proof (Hmax z Hz Hzm) as Hlt.
+    rewrite E in Hm. apply in_app_or in Hm. destruct Hm as [Hm|[Hm|[]]]; [|congruence].
+    apply In_nth_error in Hm. destruct Hm as [i Hi].
+    assert (Hi' : (i < length (removelast (x0 :: l0)))%nat) by (apply nth_error_Some; congruence).
+    assert (A : nth_error (x0 :: l0) i = Some m) by (rewrite E, nth_error_app1; assumption).
+    assert (B : nth_error (x0 :: l0) (length (removelast (x0 :: l0))) = Some z).
+    { rewrite E at 1. rewrite nth_error_app2 by lia. rewrite Nat.sub_diag. reflexivity. }
+    pose proof (Sl _ _ _ _ Hi' A B). lia.
+  Qed.
+End SortLast.
+
+Lemma sorted_tids_last n : WF n -> last (sorted_tids n) 0 = VT.
+Proof.
+  intros [W0 HV]. unfold sorted_tids. set (keys := dkeys (tensors n)).
+  set (key := fun t => if Z.eqb t VT then zmax0 keys + 1 else t).
+  apply (ksorted_last key).
+  - apply ksort_sorted.
+  - eapply Permutation_in; [apply ksort_perm | exact HV].
+  - intros y Hy Hne. apply (Permutation_in _ (Permutation_sym (ksort_perm key keys))) in Hy.
+    unfold key. rewrite Z.eqb_refl. destruct (Z.eqb_spec y VT); [congruence|].
+    pose proof (zmax0_ge keys y Hy). lia.
+  - eapply Permutation_NoDup; [apply ksort_perm | apply (wf_ndT n W0)].
+Qed.
